@@ -138,3 +138,100 @@ func init() {
 	Register(302, "piececache.Cache Get sequences: hit/miss, Len, Size", genCache)
 	RegisterReplay(302, runCache)
 }
+
+// kind 304: Get split into its halves with other Gets in between.
+// in = [max (op key size)*]  op 0 whole Get | 1 lookup half (key is cached) | 2 read half of the pending lookup
+// obs per op = [hit or value length; Len; Size]
+func runCacheSplit(in []int64) []int64 {
+	c := piececache.New(in[0], time.Hour, 4)
+	defer c.Close()
+	var obs []int64
+	var pending *piececache.ItemForVerif
+	var pendingSize int64
+	for i := 1; i+2 < len(in); i += 3 {
+		op, key, size := in[i], strconv.FormatInt(in[i+1], 10), in[i+2]
+		loader := func(sz int64, called *bool) piececache.Loader {
+			return func() ([]byte, error) {
+				*called = true
+				b := make([]byte, sz)
+				for k := range b {
+					b[k] = 0xAB
+				}
+				return b, nil
+			}
+		}
+		switch op {
+		case 0:
+			called := false
+			if _, err := c.Get(key, loader(size, &called)); err != nil {
+				obs = append(obs, -1, 0, 0)
+				continue
+			}
+			obs = append(obs, b2i(!called), int64(c.Len()), c.Size())
+		case 1:
+			pending, pendingSize = c.LookupForVerif(key), size
+			obs = append(obs, 1, int64(c.Len()), c.Size())
+		case 2:
+			if pending == nil {
+				obs = append(obs, -6)
+				return obs
+			}
+			called := false
+			v, err := c.ReadForVerif(pending, loader(pendingSize, &called))
+			pending = nil
+			if err != nil {
+				obs = append(obs, -1, 0, 0)
+				continue
+			}
+			n := int64(len(v))
+			for _, b := range v {
+				if b != 0xAB {
+					n = -2
+				}
+			}
+			obs = append(obs, n, int64(c.Len()), c.Size())
+		}
+	}
+	return obs
+}
+
+func genCacheSplit(r *rand.Rand, tier string) Case {
+	mx := pick(r, 10, 16, 24, 50)
+	in := []int64{mx}
+	size := map[int64]int64{}
+	cached := map[int64]bool{} // an over-approximation is enough: the lookup half is only generated right after a Get of that key
+	n := 4 + r.Intn(14)
+	pending := false
+	last := int64(-1)
+	for i := 0; i < n; i++ {
+		x := r.Intn(10)
+		switch {
+		case pending && x < 4:
+			in = append(in, 2, 0, 0)
+			pending = false
+		case !pending && last >= 0 && size[last] > 0 && size[last] <= mx && x < 5:
+			in = append(in, 1, last, size[last])
+			pending = true
+		default:
+			k := int64(r.Intn(6))
+			if _, ok := size[k]; !ok {
+				size[k] = pick(r, 1, 3, 8, 10, 16)
+			}
+			in = append(in, 0, k, size[k])
+			cached[k] = true
+			last = k
+			if pending && r.Intn(3) == 0 {
+				last = -1
+			}
+		}
+	}
+	if pending {
+		in = append(in, 2, 0, 0)
+	}
+	return Case{In: in, Obs: Guard(func() []int64 { return runCacheSplit(in) })}
+}
+
+func init() {
+	Register(304, "piececache.Cache Get split into lookup and read with other Gets (evictions) in between", genCacheSplit)
+	RegisterReplay(304, runCacheSplit)
+}
